@@ -40,7 +40,7 @@ PC_TUPLES = [(2, 4, 8), (0, 2, 4, 8), (0, 4), (8, 0, 2), (0, 2, 4, 8), (4, 8), (
 
 
 def cases(tier, seed):
-    n = 360 if tier == 'quick' else 7000
+    n = 360 if tier == 'quick' else 16000
     cs = []
     for i in range(n):
         mode = ['layer', 'channel', 'channel0'][i % 3]
